@@ -124,7 +124,7 @@ package base
 // ==== metric key sets (C19: labelled counters are attributed to the label values of the records that caused them; C06) =============
 // Extract returns the record's own values of the key fields (transient views)
 //@ func (ex *FieldSetExtractor) Extract(record *LogRecord) []string
-//@   property C19 C06
+//@   property C19 C06 C07
 //@   requires ex != nil && record != nil && len(ex.fieldSetBuffer) == len(ex.locators) && ref(ex.fieldSetBuffer) != ref(record.Fields) && ref(ex.fieldSetBuffer) != 0
 //@   requires forall i int :: 0 <= i && i < len(ex.locators) ==> 0 <= ex.locators[i] && ex.locators[i] < len(record.Fields)
 //@   modifies ex.fieldSetBuffer[:]
@@ -136,7 +136,7 @@ package base
 //@ ghost var lastmks string
 //@ ghost var lastmkeys []string
 //@ func (pcounter *LogProcessCounterSet) SelectMetricKeySet(record *LogRecord) *LogInputCounterSet
-//@   property C19 C06
+//@   property C19 C06 C07
 //@   requires pcounter != nil && record != nil && pcounter.keySetPairs != nil && pcounter.customCounterVecMap != nil && pcounter.factory != nil && len(pcounter.mergeKeyBuffer) == 0
 //@   requires len(pcounter.metricKeyExtractor.fieldSetBuffer) == len(pcounter.metricKeyExtractor.locators) && ref(pcounter.metricKeyExtractor.fieldSetBuffer) != ref(record.Fields) && ref(pcounter.metricKeyExtractor.fieldSetBuffer) != 0
 //@   requires forall i int :: 0 <= i && i < len(pcounter.metricKeyExtractor.locators) ==> 0 <= pcounter.metricKeyExtractor.locators[i] && pcounter.metricKeyExtractor.locators[i] < len(record.Fields)
